@@ -78,6 +78,8 @@ MNext ==
           IN /\ ghost' = g2
              /\ (f # {} => Report("FAIL", rec, f))
              /\ (d # {} => Report("DRIFT", rec, d))
+             /\ (("C16.query" \in f /\ "FR_DEBUG" \in DOMAIN IOEnv) =>
+                   PrintT(<<"EXPECTED-QUERY", rec.trace, rec.i, QueryAnswer(step.pre, step.act), PageInfo(step.pre, step.act)>>))
              /\ ((d # {} /\ "FR_DEBUG" \in DOMAIN IOEnv) =>
                    PrintT(<<"EXPECTED", rec.trace, rec.i, [fld \in d \cap StateFields |-> exp.st[fld]], exp.ok, exp.err, exp.xfers>>))
   /\ LET rec == Tr[l + 1] IN
